@@ -5,7 +5,7 @@ From CG3 Require Import Lib.PyZ Lib.Val Model.IndelMap Model.IndelMapFixed Spec.
 From CG3 Require Import Proofs.IndelMapProofs Proofs.IndelMapOps Proofs.IndelMapSlice Proofs.IndelMapIndex
                         Proofs.IndelMapMain Proofs.IndelMapBounded Proofs.IndelMapFixedProofs Proofs.IndelMapShared
                         Proofs.IndelMapJoin Proofs.IndelMapMerge Proofs.IndelMapGenEq Proofs.IndelMapGenMergeEq
-                        Proofs.IndelMapGenLoopEq.
+                        Proofs.IndelMapGenLoopEq Proofs.IndelMapGenCoordsEq Proofs.IndelMapGenJoinEq.
 From CG3gen Require Import IndelMapGen.
 Import G.
 
@@ -97,3 +97,40 @@ Lemma gen_nongap_bounded k : (length k <= 10)%nat -> nonempty (g_nongap (from_ma
 Proof.
   intros Hk. rewrite nongap_eq by (apply WF_LenOK, wf_from_mask). now apply listings_v2_bounded.
 Qed.
+
+(** ** [shared_gaps] / [minus_gaps] with [coords_intersect], [coords_minus_coords], [span_and_span] *)
+
+Lemma gen_shared_gaps_spec m1 m2 : WF m1 -> WF m2 -> g_len m1 = g_len m2 ->
+  g_shared_gaps m1 m2 = Ok (mask_shared (abs m1) (abs m2)).
+Proof. intros H1 H2 Hl. rewrite !len_eq in Hl. rewrite shared_gaps_eq_all. now apply shared_gaps_spec. Qed.
+
+Lemma gen_minus_gaps_spec m1 m2 : WF m1 -> WF m2 -> g_len m1 = g_len m2 ->
+  exists m', g_minus_gaps m1 m2 = Ok m' /\ WF m' /\ abs m' = mask_minus (abs m1) (abs m2).
+Proof. intros H1 H2 Hl. rewrite !len_eq in Hl. rewrite minus_gaps_eq_all. now apply minus_gaps_spec. Qed.
+
+Lemma gen_minus_gaps_from_mask k1 k2 : zlen k1 = zlen k2 ->
+  g_minus_gaps (from_mask k1) (from_mask k2) = Ok (from_mask (mask_minus k1 k2)).
+Proof. intros H. rewrite minus_gaps_eq_all. now apply minus_gaps_from_mask. Qed.
+
+(** ** [joined_segments], [from_aligned_segments], [gap_coords_to_map] *)
+
+Lemma segs_ok_snd_le cs : forall start n, segs_ok start n cs -> Forall (fun se : Z * Z => snd se <= n) cs.
+Proof.
+  induction cs as [|(a, b) t IH]; intros start n H; [constructor|].
+  cbn [segs_ok] in H. destruct H as (_ & _ & Hb & Ht). constructor; [exact Hb|]. exact (IH b n Ht).
+Qed.
+
+Lemma gen_joined_segments_spec k cs : segs_ok 0 (zlen k) cs ->
+  g_joined_segments (from_mask k) cs = Ok (from_mask (mask_join k cs)).
+Proof.
+  intros H. pose proof (wf_from_mask k) as Hwf.
+  rewrite joined_segments_eq_gen; [now apply joined_segments_spec|now apply WF_LenOK|now apply WF_len_nonneg|].
+  rewrite len_from_mask. now apply (segs_ok_snd_le cs 0).
+Qed.
+
+Lemma gen_from_aligned_segments_spec k : has_residue k = true ->
+  g_from_aligned_segments (seg_runs k) (zlen k) = Ok (from_mask k).
+Proof. intros H. rewrite from_aligned_segments_eq. now apply from_aligned_segments_spec. Qed.
+
+Lemma gen_gap_coords_to_map_spec k : g_gap_coords_to_map (gap_insertions k) (count_res k) = Ok (from_mask k).
+Proof. rewrite gap_coords_to_map_eq. apply gap_coords_to_map_spec. Qed.
